@@ -3,7 +3,8 @@
 //   --space ge     every definition graph on n <= N general entities e0..e(n-1) in which each entity's replacement text references a multiset
 //                  of <= 2 entities (self references and cycles included): 3 + 36 + 1000 (+ 50625 for N=4) labelled graphs, referenced as &e0;
 //                  from element content / from an attribute value / from both; variant "last entity is external" for the content site.
-//                  Per graph: no SecurityManager (baseline), limits 0..T+1 (T = reference expansion count, capped) and the default limit.
+//                  Per graph: no SecurityManager (baseline), limits 0..T+1 (T = reference expansion count, capped at 40; 0..n+2 when a cycle is reachable)
+//                  and 50000.  Graphs on 4 entities are run on the first --parsers4 parser(s) only.
 //   --space pe     the same graphs on <= N parameter entities (references written &#37;pK; so that they are expanded when the containing PE is
 //                  included), referenced as %p0; from the internal subset.
 //   --space schema the same graphs (n <= 2 by default) in the internal subset of the *schema document* named by xsi:noNamespaceSchemaLocation.
@@ -74,6 +75,7 @@ static const char* MSG_REC = "recursive entity expansion";
 struct PCfg { int api, scanner; bool erefs; const char* name; };
 static const PCfg PCFG[] = {{SAX2, IG, false, "SAX2/IG"}, {SAX2, DG, false, "SAX2/DG"}, {DOM, IG, true, "DOM+entrefs/IG"}, {SAX1, DG, false, "SAX1/DG"}};
 static int g_npcfg = 3;
+static int g_npcfg4 = 1;  // parsers used for the 50625 graphs on 4 entities (budget)
 
 // ------------------------------------------------------------------------------------------------ space ge
 enum Site { S_CONTENT, S_ATTR, S_BOTH, S_CONTENT_EXT, NSITE };
@@ -102,7 +104,7 @@ static void run_ge(uint64_t idx, Ctx& cx) {
     cx.count(cyclic ? "graphs_cycle_reachable" : "graphs_acyclic_reachable");
     std::string where = "\"graph\":" + jstr(graph_str(ch)) + ",\"site\":" + jstr(SiteName[site]) + ",\"doc\":" + jstr(doc) + ",\"reference_count\":" + (cyclic ? std::string("\"infinite\"") : std::to_string((unsigned long long)T));
     ParseIO io; io.bytes = doc;
-    for (int pc = 0; pc < g_npcfg; pc++) {
+    for (int pc = 0; pc < (n >= 4 ? g_npcfg4 : g_npcfg); pc++) {
         Config c; c.api = PCFG[pc].api; c.scanner = PCFG[pc].scanner; c.entRefNodes = PCFG[pc].erefs;
         auto viol = [&](const std::string& kind, int limit, const ParseResult& r, const std::string& what) {
             cx.violation(kind, where + ",\"parser\":" + jstr(PCFG[pc].name) + ",\"limit\":" + std::to_string(limit) + ",\"what\":" + jstr(what) + ",\"errors\":" + jstr(join(r.errors)) +
@@ -121,7 +123,7 @@ static void run_ge(uint64_t idx, Ctx& cx) {
         }
         // limits 0..T+1 (capped), a limit far above, and the SecurityManager default
         std::vector<int> limits;
-        uint64_t top = cyclic ? (uint64_t)(2 * n + 3) : std::min<uint64_t>(T + 1, 40);
+        uint64_t top = cyclic ? (uint64_t)(n + 2) : std::min<uint64_t>(T + 1, 40);
         for (uint64_t L = 0; L <= top; L++) limits.push_back((int)L);
         limits.push_back(50000);
         for (int L : limits) {
@@ -181,7 +183,7 @@ static void run_pe(uint64_t idx, Ctx& cx) {
             else cx.count("cycle_reported_without_limit");
         } else if (base.fatals || !base.exc.empty()) viol("harness-baseline-fails", -1, base, "acyclic document must parse without SecurityManager");
         else cx.count("baseline_ok");
-        uint64_t top = cyclic ? (uint64_t)(2 * n + 3) : std::min<uint64_t>(T + 1, 40);
+        uint64_t top = cyclic ? (uint64_t)(n + 2) : std::min<uint64_t>(T + 1, 40);
         for (uint64_t L = 0; L <= top; L++) {
             c.secLimit = (int)L;
             ParseResult r = parse_xerces(c, io);
@@ -244,7 +246,7 @@ static void run_schema(uint64_t idx, Ctx& cx) {
         else cx.count("cycle_reported_without_limit");
     } else if (base.fatals || base.errs || !base.exc.empty()) viol("harness-baseline-fails", -1, base, "acyclic schema document must load and validate the instance");
     else cx.count("baseline_ok");
-    uint64_t top = cyclic ? (uint64_t)(2 * n + 3) : std::min<uint64_t>(T + 1, 40);
+    uint64_t top = cyclic ? (uint64_t)(n + 2) : std::min<uint64_t>(T + 1, 40);
     for (uint64_t L = 0; L <= top; L++) {
         fresh();
         c.secLimit = (int)L;
@@ -299,6 +301,7 @@ int main(int argc, char** argv) {
     g_N = (int)a.num("n", 3);
     g_strict = a.num("strict", 0) != 0;
     g_npcfg = (int)a.num("parsers", 3);
+    g_npcfg4 = (int)a.num("parsers4", 1);
     g_predefK = (int)a.num("refs", 4);
     Runner R;
     R.name = space;
